@@ -43,6 +43,7 @@ type Backend interface {
 	Expired(err error) (v int, at int64, ok bool)
 	Slot(key []byte) uint64
 	Raw() interface{}
+	Index() *cache.InvalidationIndex // the invalidation index embedded in the backend
 }
 
 func tokOf(v interface{}) int {
@@ -67,6 +68,7 @@ func valOf(t int) interface{} {
 type shardedB struct{ c *cache.ShardedMap }
 
 func (b shardedB) Kind() string { return "sharded" }
+func (b shardedB) Index() *cache.InvalidationIndex { return b.c.InvalidationIndex }
 func (b shardedB) Read(ctx context.Context, key []byte) (int, error) {
 	v, err := b.c.Read(ctx, key)
 	return tokOf(v), err
@@ -128,6 +130,7 @@ type syncB struct {
 }
 
 func (b syncB) Kind() string { return "sync" }
+func (b syncB) Index() *cache.InvalidationIndex { return b.c.InvalidationIndex }
 func (b syncB) Read(ctx context.Context, key []byte) (int, error) {
 	v, err := b.c.Read(ctx, key)
 	return tokOf(v), err
@@ -179,6 +182,7 @@ func (b syncB) Expired(err error) (int, int64, bool) { return expiredAny(err) }
 type shardedOfB struct{ c *cache.ShardedMapOf[int] }
 
 func (b shardedOfB) Kind() string { return "shardedOf" }
+func (b shardedOfB) Index() *cache.InvalidationIndex { return b.c.InvalidationIndex }
 func (b shardedOfB) Read(ctx context.Context, key []byte) (int, error) {
 	return b.c.Read(ctx, key)
 }
